@@ -19,6 +19,7 @@ int valid_write (string path, mixed who, string fn) { return 1; }
 string error_handler (mapping m, int caught) {
   string e = m["error"];
   if (!stringp(e)) e = "?";
+  if (!caught && strsrch (e, "c12-throw") >= 0) return "";   // the scripted `err` op (already logged as `throw u<k>`)
   VL((caught ? "caught " : "err ") + e);
   return "";
 }
